@@ -295,6 +295,9 @@ class Ctx:
             return self.call(n)
         if op == 'absi':
             return self.absatom(n.args[0])
+        if op == 'sel':
+            # an element of memory written by an opaque call: an input-like atom
+            return (self.reduce(patom(self.key(n))), one)
         if op == 'ite':
             a = abs_idiom(n)
             if a is not None:
